@@ -344,6 +344,28 @@ impl FileSpec {
         }
     }
 
+    // if files with the extended infix "<infix>.restart-<number>" exist,
+    // returns the extended infix of the newest of them, otherwise the given infix
+    pub(crate) fn latest_restart_infix(&self, infix: &str) -> String {
+        let mut restarts = self
+            .list_of_files(
+                &InfixFilter::Equls(infix.to_string()),
+                self.o_suffix.as_deref(),
+            )
+            .into_iter()
+            .filter_map(|pb| {
+                let name = pb.file_name()?.to_string_lossy().to_string();
+                let index = name.find(".restart-")?;
+                name.get(index..index + 13).map(ToString::to_string)
+            })
+            .collect::<Vec<String>>();
+        restarts.sort_unstable();
+        match restarts.pop() {
+            Some(restart) => format!("{infix}{restart}"),
+            None => infix.to_string(),
+        }
+    }
+
     pub(crate) fn list_of_files(
         &self,
         infix_filter: &InfixFilter,
